@@ -473,6 +473,11 @@ func (priv *DSAPrivateKey) Import(in []byte) bool {
 		in = in[end:]
 
 		if len(hexBytes)&1 != 0 {
+			// ExportKeys (like libgcrypt for small values) may drop a leading zero nibble: pad to whole bytes
+			hexBytes = append([]byte{'0'}, hexBytes...)
+		}
+
+		if len(hexBytes)&1 != 0 {
 			return false
 		}
 
